@@ -1,7 +1,580 @@
-//! C19 — not implemented yet (see DESIGN.md section 4).
-use kit::Run;
-use serde_json::Value;
+//! C19 — ingredient graph validation terminates and rejects malformed graphs.
+//!
+//! S-inp: crafted manifest stores (hooks `verif_hooks::graph`, claims signed with the repository's Ed25519 test
+//! credential). Every directed graph on 1..=3 manifests including self loops plus one absent ("dangling") target
+//! per node (4 + 64 + 4096 graphs) in the quick tier, additionally all 65 536 graphs on 4 manifests in the
+//! thorough tier; linear chains, a 300-leaf star and "ladders" (two manifests per level, every manifest of a
+//! level references both manifests of the next level: 2^k paths on 2k+1 manifests). Node 0 is the active manifest.
+//! Manifests are built bottom-up (DFS post-order), so every edge whose target is already built carries the
+//! correct manifest-box hash; only DFS back edges (which exist iff the source lies on a cycle) carry a dummy hash.
+//!
+//! Every case runs in a WORKER SUBPROCESS (re-exec with VERIF_C19_WORKER) on a thread with Rust's default 2 MiB
+//! stack, so a stack overflow or abort kills only the worker and is attributed to the exact case.
+//!
+//! Mutants caught (tools/mutant_run.sh I <diff> C19 quick):
+//!   /verif/mutants/C19-depth-limit-raised.diff   (MAX_INGREDIENT_DEPTH 200 -> 100000: the 300-chain reads Valid)
+//!   /verif/mutants/C19-no-visited-memo.diff      (ingredient_checks recurses into already visited ingredients:
+//!                                                  ladder blows the per-case budgets)
+//!   /verif/mutants/C19-missing-ingredient-informational.diff (absent ingredient manifest only informational: dangling graphs read Valid)
 
-pub fn run(_run: &Run, _replay: Option<&Value>) {
-    kit::ev::machinery("C19: check not implemented");
+use c2pa::{
+    assertions::{Action, Actions, DataHash},
+    verif_hooks::{graph, label as vlabel, store_to_jumbf, Claim, Store},
+    ClaimGeneratorInfo, Context, DigitalSourceType, HashedUri, Reader, Relationship,
+};
+use kit::{par, sdk, workers, Run};
+use serde_json::{json, Value};
+use sha2::{Digest, Sha256};
+use std::io::Cursor;
+
+const ENV: &str = "VERIF_C19_WORKER";
+/// `MAX_INGREDIENT_DEPTH` named by the property's anchors.
+const LIMIT: usize = 200;
+const BUDGET_MS: u64 = 2000;
+
+#[derive(Clone, Debug, PartialEq)]
+enum Case {
+    /// n manifests; bit i*n+j = edge i->j; if `dangling`, bit n*n+i = edge i->absent manifest
+    Small { n: usize, bits: u32, dangling: bool },
+    Chain(usize),
+    Star(usize),
+    Ladder(usize),
+}
+
+impl Case {
+    fn to_json(&self) -> Value {
+        match self {
+            Case::Small { n, bits, dangling } => json!({"kind":"small","n":n,"bits":bits,"dangling":dangling}),
+            Case::Chain(n) => json!({"kind":"chain","n":n}),
+            Case::Star(n) => json!({"kind":"star","n":n}),
+            Case::Ladder(k) => json!({"kind":"ladder","k":k}),
+        }
+    }
+    fn from_json(v: &Value) -> Option<Case> {
+        let u = |k: &str| v[k].as_u64().map(|x| x as usize);
+        Some(match v["kind"].as_str()? {
+            "small" => Case::Small { n: u("n")?, bits: v["bits"].as_u64()? as u32, dangling: v["dangling"].as_bool()? },
+            "chain" => Case::Chain(u("n")?),
+            "star" => Case::Star(u("n")?),
+            "ladder" => Case::Ladder(u("k")?),
+            _ => return None,
+        })
+    }
+    /// (number of manifests, adjacency; target == n means the absent manifest)
+    fn graph(&self) -> (usize, Vec<Vec<usize>>) {
+        match *self {
+            Case::Small { n, bits, dangling } => {
+                let mut adj = vec![vec![]; n];
+                for i in 0..n {
+                    for j in 0..n {
+                        if bits >> (i * n + j) & 1 == 1 {
+                            adj[i].push(j);
+                        }
+                    }
+                    if dangling && bits >> (n * n + i) & 1 == 1 {
+                        adj[i].push(n);
+                    }
+                }
+                (n, adj)
+            }
+            Case::Chain(n) => (n, (0..n).map(|i| if i + 1 < n { vec![i + 1] } else { vec![] }).collect()),
+            Case::Star(l) => {
+                let mut adj = vec![vec![]; l + 1];
+                adj[0] = (1..=l).collect();
+                (l + 1, adj)
+            }
+            Case::Ladder(k) => {
+                // node 0 -> level 1 {1,2} -> level 2 {3,4} ... level k {2k-1, 2k}
+                let n = 2 * k + 1;
+                let mut adj = vec![vec![]; n];
+                if k > 0 {
+                    adj[0] = vec![1, 2];
+                }
+                for lv in 1..k {
+                    let (a, b) = (2 * lv - 1, 2 * lv);
+                    let (c, d) = (2 * lv + 1, 2 * lv + 2);
+                    adj[a] = vec![c, d];
+                    adj[b] = vec![c, d];
+                }
+                (n, adj)
+            }
+        }
+    }
+}
+
+fn cases(thorough: bool) -> Vec<Case> {
+    let mut v = vec![];
+    for n in 1..=3usize {
+        for bits in 0..(1u32 << (n * n + n)) {
+            v.push(Case::Small { n, bits, dangling: true });
+        }
+    }
+    if thorough {
+        for bits in 0..(1u32 << 16) {
+            v.push(Case::Small { n: 4, bits, dangling: false });
+        }
+    }
+    for n in [2usize, 50, 150, 199, 200, 201, 300] {
+        v.push(Case::Chain(n));
+    }
+    v.push(Case::Star(300));
+    for k in if thorough { vec![2usize, 8, 16, 24, 60, 99] } else { vec![2usize, 8, 16, 24] } {
+        v.push(Case::Ladder(k));
+    }
+    v
+}
+
+/// Ground truth from the graph alone.
+#[derive(Debug, Clone, Copy)]
+struct Truth {
+    reachable_cycle: bool,
+    reachable_dangling: bool,
+    /// number of manifests on the longest simple path from node 0 (only meaningful when acyclic)
+    depth_manifests: usize,
+    all_reachable: bool,
+    edges: usize,
+}
+
+fn truth(n: usize, adj: &[Vec<usize>]) -> Truth {
+    // reachability (iterative)
+    let mut reach = vec![false; n];
+    let mut st = vec![0usize];
+    reach[0] = true;
+    let mut dangling = false;
+    while let Some(u) = st.pop() {
+        for &t in &adj[u] {
+            if t == n {
+                dangling = true;
+            } else if !reach[t] {
+                reach[t] = true;
+                st.push(t);
+            }
+        }
+    }
+    // cycle among reachable nodes: iterative colouring DFS
+    let mut colour = vec![0u8; n];
+    let mut cyc = false;
+    let mut order: Vec<usize> = vec![];
+    let mut stack: Vec<(usize, usize)> = vec![(0, 0)];
+    colour[0] = 1;
+    while let Some(top) = stack.last_mut() {
+        let (u, k) = (top.0, top.1);
+        if k < adj[u].len() {
+            top.1 += 1;
+            let t = adj[u][k];
+            if t == n {
+                continue;
+            }
+            match colour[t] {
+                0 => {
+                    colour[t] = 1;
+                    stack.push((t, 0));
+                }
+                1 => cyc = true,
+                _ => {}
+            }
+        } else {
+            colour[u] = 2;
+            order.push(u);
+            stack.pop();
+        }
+    }
+    // longest path (post-order gives reverse topological order when acyclic)
+    let mut depth = vec![1usize; n];
+    if !cyc {
+        for &u in &order {
+            for &t in &adj[u] {
+                if t != n {
+                    depth[u] = depth[u].max(depth[t] + 1);
+                }
+            }
+        }
+    }
+    Truth {
+        reachable_cycle: cyc,
+        reachable_dangling: dangling,
+        depth_manifests: depth[0],
+        all_reachable: reach.iter().all(|x| *x),
+        edges: adj.iter().map(|a| a.len()).sum(),
+    }
+}
+
+fn label(i: usize) -> String {
+    format!("urn:c2pa:{:08x}-0000-4000-8000-{:012x}", i + 1, i + 1)
+}
+
+fn build_ctx() -> Context {
+    // Context::with_settings replaces the settings: state the kit's base settings again
+    sdk::ctx_with(&[r#"{"builder":{"thumbnail":{"enabled":false}},"verify":{"verify_after_sign":false,"verify_after_reading":false,"ocsp_fetch":false,"remote_manifest_fetch":false}}"#])
+}
+
+/// Build the crafted store for a graph. Returns the JUMBF bytes.
+fn build_store(n: usize, adj: &[Vec<usize>], asset: &[u8]) -> Result<Vec<u8>, String> {
+    let signer = sdk::fixture_signer("ed25519");
+    let ctx = build_ctx();
+    let asset_hash = Sha256::digest(asset).to_vec();
+    // DFS post-order over all nodes, node 0 first (iterative)
+    let mut order: Vec<usize> = vec![];
+    let mut seen = vec![false; n];
+    for root in 0..n {
+        if seen[root] {
+            continue;
+        }
+        seen[root] = true;
+        let mut stack: Vec<(usize, usize)> = vec![(root, 0)];
+        while let Some(top) = stack.last_mut() {
+            let (u, k) = (top.0, top.1);
+            if k < adj[u].len() {
+                top.1 += 1;
+                let t = adj[u][k];
+                if t != n && !seen[t] {
+                    seen[t] = true;
+                    stack.push((t, 0));
+                }
+            } else {
+                order.push(u);
+                stack.pop();
+            }
+        }
+    }
+    let mut hashes: Vec<Option<Vec<u8>>> = vec![None; n];
+    let mut claims: Vec<Option<Claim>> = (0..n).map(|_| None).collect();
+    for &i in &order {
+        let e = |what: &str, e: c2pa::Error| format!("{what} (manifest {i}): {e:?}");
+        let mut claim = Claim::new_with_user_guid("verif", label(i).as_str(), 2).map_err(|x| e("Claim::new_with_user_guid", x))?;
+        claim.add_claim_generator_info(ClaimGeneratorInfo::new("verif"));
+        let actions = Actions::new().add_action(Action::new("c2pa.created").set_source_type(DigitalSourceType::Empty));
+        claim.add_assertion(&actions).map_err(|x| e("add actions", x))?;
+        let mut dh = DataHash::new("jumbf manifest", "sha256");
+        dh.set_hash(asset_hash.clone());
+        claim.add_assertion(&dh).map_err(|x| e("add data hash", x))?;
+        for &t in &adj[i] {
+            let h = if t < n { hashes[t].clone() } else { None };
+            let uri = HashedUri::new(vlabel::to_manifest_uri(&label(t)), Some("sha256".into()), &h.unwrap_or_else(|| vec![0u8; 32]));
+            graph::add_ingredient_ref(&mut claim, &format!("m{t}"), Relationship::ComponentOf, uri, None).map_err(|x| e("add ingredient", x))?;
+        }
+        graph::sign_claim_in_place(&mut claim, signer.as_ref(), &ctx).map_err(|x| e("sign claim", x))?;
+        hashes[i] = Some(graph::manifest_hashes(&claim).map_err(|x| e("manifest hash", x))?.0);
+        claims[i] = Some(claim);
+    }
+    let mut store = Store::from_context(&ctx);
+    for &i in order.iter().filter(|i| **i != 0) {
+        graph::insert_claim(&mut store, claims[i].take().ok_or("claim built twice")?);
+    }
+    graph::insert_claim(&mut store, claims[0].take().ok_or("active claim missing")?);
+    store_to_jumbf(&store).map_err(|e| format!("store_to_jumbf: {e:?}"))
+}
+
+#[derive(Debug, Clone)]
+struct Obs {
+    /// "Valid" | "Trusted" | "Invalid" | "Err(kind)" | "PANIC ..."
+    state: String,
+    log_len: usize,
+    failure_codes: Vec<String>,
+    wall_ms: u64,
+    cpu_ms: u64,
+}
+
+fn count_codes(v: &Value, failures: &mut Vec<String>, in_failure: bool) -> usize {
+    match v {
+        Value::Object(m) => {
+            let mut n = 0;
+            if let Some(c) = m.get("code").and_then(|c| c.as_str()) {
+                n += 1;
+                if in_failure && !failures.iter().any(|f| f == c) {
+                    failures.push(c.to_string());
+                }
+            }
+            for (k, x) in m {
+                n += count_codes(x, failures, in_failure || k == "failure");
+            }
+            n
+        }
+        Value::Array(a) => a.iter().map(|x| count_codes(x, failures, in_failure)).sum(),
+        _ => 0,
+    }
+}
+
+fn observe(f: impl FnOnce() -> c2pa::Result<Reader>) -> Obs {
+    let t0 = std::time::Instant::now();
+    let c0 = workers::thread_cpu_us();
+    let r = par::guard(f);
+    let cpu_ms = (workers::thread_cpu_us() - c0) / 1000;
+    let wall_ms = t0.elapsed().as_millis() as u64;
+    match r {
+        Err(p) => Obs { state: format!("PANIC {p}"), log_len: 0, failure_codes: vec![], wall_ms, cpu_ms },
+        Ok(Err(e)) => Obs { state: format!("Err({})", sdk::err_kind(&e)), log_len: 0, failure_codes: vec![], wall_ms, cpu_ms },
+        Ok(Ok(rd)) => {
+            let mut failures = vec![];
+            let vr = rd.validation_results().map(|v| serde_json::to_value(v).unwrap_or(Value::Null)).unwrap_or(Value::Null);
+            let n = count_codes(&vr, &mut failures, false);
+            failures.sort();
+            Obs { state: sdk::state_name(rd.validation_state()).to_string(), log_len: n, failure_codes: failures, wall_ms, cpu_ms }
+        }
+    }
+}
+
+/// Execute one case completely (build + both entry points). Returns (truth, observations) or a build error.
+fn execute(case: &Case) -> Result<(Truth, usize, Vec<(&'static str, Obs)>), String> {
+    let (n, adj) = case.graph();
+    let asset = kit::assets::jpeg();
+    let tr = truth(n, &adj);
+    let jumbf = par::guard(|| build_store(n, &adj, &asset)).map_err(|p| format!("panic while building: {p}"))??;
+    // run on a thread with the default (2 MiB) stack: the environment an application thread offers
+    let (j2, a2) = (jumbf.clone(), asset.clone());
+    let h = std::thread::Builder::new()
+        .name("c19-case".into())
+        .spawn(move || {
+            // a validation that exceeds the CPU budget is repeated (up to 3 executions, the fastest counts): the box is shared
+            let confirm = |f: &dyn Fn() -> Obs| {
+                let mut o = f();
+                for _ in 0..2 {
+                    if o.cpu_ms <= BUDGET_MS {
+                        break;
+                    }
+                    let o2 = f();
+                    if o2.cpu_ms < o.cpu_ms {
+                        o = o2;
+                    }
+                }
+                o
+            };
+            let a = confirm(&|| observe(|| Reader::from_context(sdk::ctx()).with_manifest_data_and_stream(&j2, "image/jpeg", Cursor::new(&a2))));
+            let b = confirm(&|| observe(|| Reader::from_context(sdk::ctx()).with_stream("application/c2pa", Cursor::new(&j2))));
+            vec![("manifest_data_and_stream", a), ("c2pa_stream", b)]
+        })
+        .map_err(|e| format!("spawn: {e}"))?;
+    let obs = h.join().map_err(|_| "case thread panicked outside guard".to_string())?;
+    Ok((tr, n, obs))
+}
+
+/// Apply the oracle. Returns (class, violations[(key, what)], machinery problem)
+fn judge(case: &Case, tr: &Truth, n: usize, obs: &[(&'static str, Obs)]) -> (String, Vec<(String, String)>, Option<String>) {
+    let over_deep = !tr.reachable_cycle && tr.depth_manifests > LIMIT + 1;
+    // 200 and 201 manifests sit on the two readings of "deeper than the limit" (edges vs manifests): no expectation
+    let boundary = !tr.reachable_cycle && (tr.depth_manifests == LIMIT || tr.depth_manifests == LIMIT + 1);
+    let malformed = tr.reachable_cycle || tr.reachable_dangling || over_deep;
+    let class = if tr.reachable_cycle && tr.reachable_dangling {
+        "cyclic+dangling"
+    } else if tr.reachable_cycle {
+        "cyclic"
+    } else if tr.reachable_dangling {
+        "dangling"
+    } else if over_deep {
+        "over-deep"
+    } else if boundary {
+        "depth-boundary"
+    } else if tr.all_reachable {
+        "control"
+    } else {
+        "well-formed-with-unreferenced-manifests"
+    };
+    let shape = match case {
+        Case::Small { n, .. } => format!("graph{n}"),
+        Case::Chain(_) => "chain".into(),
+        Case::Star(_) => "star".into(),
+        Case::Ladder(_) => "ladder".into(),
+    };
+    let mut viol = vec![];
+    let mut mach = None;
+    let log_bound = 64 * (n + tr.edges + 1) * (n + tr.edges + 1);
+    for (ep, o) in obs {
+        if o.state.starts_with("PANIC") {
+            viol.push((format!("panic class={class} shape={shape} entry={ep}"), format!("{}: {}", ep, o.state)));
+            continue;
+        }
+        if o.cpu_ms > BUDGET_MS {
+            viol.push((
+                format!("slow class={class} shape={shape} entry={ep}"),
+                format!("{ep}: validation used {} ms CPU ({} ms wall) for {n} manifests / {} edges (budget {BUDGET_MS} ms)", o.cpu_ms, o.wall_ms, tr.edges),
+            ));
+        }
+        if o.log_len > log_bound {
+            viol.push((
+                format!("log-blowup class={class} shape={shape} entry={ep}"),
+                format!("{ep}: {} validation status entries for {n} manifests / {} edges (bound 64*(n+e+1)^2 = {log_bound})", o.log_len, tr.edges),
+            ));
+        }
+        let accepted = o.state == "Valid" || o.state == "Trusted";
+        if malformed && accepted {
+            viol.push((
+                format!("malformed-accepted class={class} shape={shape} entry={ep}"),
+                format!("{ep}: {class} ingredient graph reported {}", o.state),
+            ));
+        }
+        if class == "control" && *ep == "manifest_data_and_stream" && !accepted {
+            mach = Some(format!("acyclic well-hashed control {:?} is not Valid via {ep}: {} {:?}", case, o.state, o.failure_codes));
+        }
+    }
+    (class.to_string(), viol, mach)
+}
+
+fn counters_zero() -> Value {
+    json!({"evals":0,"outcomes":{},"nontrivial":0})
+}
+
+pub fn run(run: &Run, replay: Option<&Value>) {
+    // ---------------------------------------------------------------- worker mode
+    if let Some(spec) = workers::worker_spec(ENV) {
+        let all = case_list(run);
+        let mut delta = counters_zero();
+        let delta_cell = std::cell::RefCell::new(&mut delta);
+        workers::worker_loop(
+            &spec,
+            64,
+            |idx, emit| {
+                let case = &all[idx as usize];
+                let mut dg = delta_cell.borrow_mut();
+                match execute(case) {
+                    Err(m) => emit.line(json!({"machinery": format!("case {:?}: {m}", case)})),
+                    Ok((tr, n, obs)) => {
+                        let (class, viol, mach) = judge(case, &tr, n, &obs);
+                        for (ep, o) in &obs {
+                            dg["evals"] = json!(dg["evals"].as_u64().unwrap_or(0) + 1);
+                            let oc = format!("{class}/{ep}:{}", o.state.split(' ').next().unwrap_or(""));
+                            let cur = dg["outcomes"][&oc].as_u64().unwrap_or(0);
+                            dg["outcomes"][&oc] = json!(cur + 1);
+                        }
+                        if class != "control" {
+                            dg["nontrivial"] = json!(dg["nontrivial"].as_u64().unwrap_or(0) + 1);
+                        }
+                        for (key, what) in viol {
+                            emit.line(json!({"violation": {"key": key, "what": what, "case": case.to_json()}}));
+                        }
+                        if let Some(m) = mach {
+                            emit.line(json!({"machinery": m}));
+                        }
+                        if !matches!(case, Case::Small { .. }) || idx % 997 == 0 {
+                            emit.line(json!({"sample": {"case": case.to_json(), "class": class,
+                                "observations": obs.iter().map(|(ep, o)| json!({"entry": ep, "state": o.state, "failure_codes": o.failure_codes,
+                                    "status_entries": o.log_len, "cpu_ms": o.cpu_ms})).collect::<Vec<_>>()}}));
+                        }
+                    }
+                }
+            },
+            || {
+                let mut dg = delta_cell.borrow_mut();
+                std::mem::replace(&mut **dg, counters_zero())
+            },
+        );
+    }
+
+    run.rule(
+        "ingredient graphs encoded as crafted stores, node 0 active: every directed graph (self loops allowed) on 1..3 manifests with an optional edge from each \
+         manifest to one absent manifest (4+64+4096), thorough: plus all 65536 graphs on 4 manifests; chains of 2/50/150/199/200/201/300 manifests, a 300-leaf star, \
+         ladders (2^k paths) k=2/8/16/24 (thorough also 60/99). Each case is validated through Reader::with_manifest_data_and_stream(store, tiny JPEG) and \
+         Reader::with_stream(\"application/c2pa\", store). non-trivial = cases that are not plain acyclic fully-referenced controls (cyclic, dangling, over-deep, \
+         depth-boundary, or carrying unreferenced manifests).",
+    );
+    run.assume("'malformed' is judged on the part of the graph reachable from the active manifest (node 0): a cycle or absent target only among manifests that the active manifest does not reference, directly or indirectly, carries no expectation (outcome recorded)");
+    run.assume("the depth limit is MAX_INGREDIENT_DEPTH = 200 as named in the property; chains of 200 and 201 manifests lie between the two readings of 'deeper than the limit' and carry no expectation, 300 must not be Valid, <= 199 is a control");
+    run.assume("a cyclic graph cannot carry correct hashes on all edges; DFS back edges carry a 32-byte zero hash, every other edge the correct manifest-box hash");
+    run.assume("validation runs on a thread with Rust's default 2 MiB stack inside a worker subprocess; time budget is 2 s of thread CPU time per validation, the fastest of up to 3 executions when exceeded (wall clock is recorded but the box is shared)");
+
+    if let Some(c) = replay {
+        let case = Case::from_json(c).unwrap_or_else(|| kit::ev::machinery("C19 replay: unreadable case"));
+        let (n, adj) = case.graph();
+        println!("replay {:?}: truth {:?}", case, truth(n, &adj));
+        std::env::set_var(CASES_ENV, json!([case.to_json()]).to_string());
+        drive(run, vec![case], true);
+        return;
+    }
+
+    // ---------------------------------------------------------------- parent
+    // determinism of one cyclic and one control case (fresh salts and signatures each time)
+    for probe in [Case::Small { n: 3, bits: 0b000_100_010, dangling: true }, Case::Small { n: 3, bits: 0b001_100_010, dangling: true }] {
+        let a = execute(&probe).unwrap_or_else(|m| kit::ev::machinery(format!("C19 probe {:?}: {m}", probe)));
+        let b = execute(&probe).unwrap_or_else(|m| kit::ev::machinery(format!("C19 probe {:?}: {m}", probe)));
+        let sig = |x: &(Truth, usize, Vec<(&'static str, Obs)>)| x.2.iter().map(|(e, o)| format!("{e}:{}:{:?}:{}", o.state, o.failure_codes, o.log_len)).collect::<Vec<_>>();
+        if sig(&a) != sig(&b) {
+            kit::ev::machinery(format!("C19: probe {:?} is not deterministic: {:?} vs {:?}", probe, sig(&a), sig(&b)));
+        }
+        run.evals(4);
+    }
+
+    let all = cases(run.tier.is_thorough());
+    let small3 = all.iter().filter(|c| matches!(c, Case::Small { n, .. } if *n <= 3)).count() as u64;
+    run.space("directed graphs with self loops on 1..=3 manifests x optional edge to one absent manifest per node", small3, true);
+    if run.tier.is_thorough() {
+        run.space("directed graphs with self loops on 4 manifests", 65_536, true);
+    }
+    run.space("chains (2,50,150,199,200,201,300), star(300), ladders", all.len() as u64 - small3 - if run.tier.is_thorough() { 65_536 } else { 0 }, true);
+    drive(run, all, false);
+}
+
+/// Case list: the tier's list, or the explicit list of a replay (passed to workers through the environment).
+const CASES_ENV: &str = "VERIF_C19_CASES";
+fn case_list(run: &Run) -> Vec<Case> {
+    match std::env::var(CASES_ENV) {
+        Ok(s) => serde_json::from_str::<Value>(&s)
+            .ok()
+            .and_then(|v| v.as_array().map(|a| a.iter().filter_map(Case::from_json).collect::<Vec<_>>()))
+            .unwrap_or_else(|| kit::ev::machinery("C19: unreadable case list in environment")),
+        Err(_) => cases(run.tier.is_thorough()),
+    }
+}
+
+/// Run `all` in worker subprocesses and record results in `run`.
+fn drive(run: &Run, all: Vec<Case>, verbose: bool) {
+    let dir = tempfile::tempdir().unwrap_or_else(|e| kit::ev::machinery(format!("tempdir: {e}")));
+    let cfg = workers::PoolCfg {
+        env: ENV,
+        args: vec!["C19".into(), "--tier".into(), run.tier.name().into()],
+        dir: dir.path(),
+        total: all.len() as u64,
+        workers: par::workers() as u64,
+        hang_secs: 120,
+        extra_env: vec![],
+    };
+    let mut machinery: Option<String> = None;
+    let mut deaths: Vec<workers::Death> = vec![];
+    workers::run_pool(
+        &cfg,
+        |line| {
+            if verbose {
+                println!("  {line}");
+            }
+            if let Some(m) = line.get("machinery").and_then(|m| m.as_str()) {
+                if machinery.is_none() {
+                    machinery = Some(m.to_string());
+                }
+            } else if let Some(v) = line.get("violation") {
+                run.violation(v["key"].as_str().unwrap_or("?"), v["what"].as_str().unwrap_or(""), v["case"].clone());
+            } else if let Some(s) = line.get("sample") {
+                run.sample(s.clone());
+            }
+        },
+        |delta| {
+            run.evals(delta["evals"].as_u64().unwrap_or(0));
+            run.nontrivial_n(delta["nontrivial"].as_u64().unwrap_or(0));
+            if let Some(m) = delta["outcomes"].as_object() {
+                for (k, v) in m {
+                    run.outcome_n(k.clone(), v.as_u64().unwrap_or(0));
+                }
+            }
+        },
+        |d| deaths.push(d),
+    );
+    if let Some(m) = machinery {
+        kit::ev::machinery(format!("C19: {m}"));
+    }
+    for d in deaths {
+        let case = &all[d.idx as usize];
+        let (n, adj) = case.graph();
+        let tr = truth(n, &adj);
+        let shape = match case {
+            Case::Small { n, .. } => format!("graph{n}"),
+            Case::Chain(_) => "chain".into(),
+            Case::Star(_) => "star".into(),
+            Case::Ladder(_) => "ladder".into(),
+        };
+        let kind = if d.how.starts_with("hang") { "hang" } else { "worker-death" };
+        run.eval();
+        run.outcome(format!("{kind}:{}", d.how.split(' ').take(2).collect::<Vec<_>>().join(" ")));
+        run.violation(
+            format!("{kind} shape={shape} cyclic={} dangling={} how={}", tr.reachable_cycle, tr.reachable_dangling, d.how.split(" (").next().unwrap_or("")),
+            format!("validating {:?} ended the worker: {}", case, d.how),
+            case.to_json(),
+        );
+    }
 }
